@@ -218,7 +218,11 @@ func projectColumns(selectList sql.SelectList, qfields storage.Fields, rows []*s
 			case sql.Average:
 				// set initial value used for subsequent aggregation step
 				idx := lookup[elem.ValueExpression.(sql.ColumnReference)]
-				newVals = append(newVals, row.Vals[idx].(int64))
+				val, isInt := row.Vals[idx].(int64)
+				if !isInt {
+					return nil, fmt.Errorf("%w: avg() needs integer values, got %v", ErrIncompatTypeCompare, row.Vals[idx])
+				}
+				newVals = append(newVals, val)
 			case sql.Count:
 				// set initial value used for subsequent aggregation step
 				count := int64(0)
@@ -430,6 +434,17 @@ func sortColumns(ssl []sql.SortSpecification, qfields storage.Fields, rows []*st
 			return err
 		}
 		sortIdxs = append(sortIdxs, idx)
+	}
+
+	// values that have no order (NULL) can't be sorted
+	for _, fieldIdx := range sortIdxs {
+		for _, row := range rows {
+			switch row.Vals[fieldIdx].(type) {
+			case int64, string, bool:
+			default:
+				return fmt.Errorf("%w: cannot sort by value %v", ErrIncompatTypeCompare, row.Vals[fieldIdx])
+			}
+		}
 	}
 
 	sort.Slice(rows, func(i, j int) bool {
